@@ -25,6 +25,8 @@ def generate(rng: random.Random, tier: str):
             for _ in range(8 if quick else 40):
                 st = S.adversarial_step(rng, g, doc, docs)
                 yield S.apply_case(fam, doc, st, True, "primitive")[0]
+            for st in S.node_level_steps(rng, doc, gen.family(fam), 4 if quick else 8):
+                yield S.apply_case(fam, doc, st, True, "node-level")[0]
 
 
 def rebuild(desc):
